@@ -44,6 +44,7 @@ type Term struct {
 	isCon  bool
 	lo, hi *big.Int // Int interval (nil = unbounded on that side)
 	intVal bool     // Real sort: value known to be an integer
+	exact  bool     // Real sort: value known to be exactly representable as a float64
 	sent   bool     // definition already sent to solver
 	extra  string   // raw SMT text for op=="raw"
 }
@@ -59,6 +60,9 @@ type TermCtx struct {
 	axioms  []string // global assertions not yet sent
 	flTerms []*Term  // applications of fl (E2 rounding)
 	anchors []*big.Rat
+	noEps   bool // E2 without the relative-error axiom (ordering/anchor reasoning only)
+	symAnchors []*Term // exact non-constant reals (e.g. to_real of a bounded integer)
+	flSymAnch  map[int]int
 	anchorSet map[string]bool
 	flAnchored map[int]int // fl term id -> number of anchors already instantiated
 	flPairs    int         // number of fl terms already pairwise-instantiated
@@ -68,11 +72,15 @@ type TermCtx struct {
 }
 
 func NewTermCtx() *TermCtx {
-	c := &TermCtx{terms: map[string]*Term{}, varByNm: map[string]*Term{}, anchorSet: map[string]bool{}, flAnchored: map[int]int{}, strIDs: map[string]int64{}, strByID: map[int64]string{}}
+	c := &TermCtx{terms: map[string]*Term{}, varByNm: map[string]*Term{}, anchorSet: map[string]bool{}, flAnchored: map[int]int{}, flSymAnch: map[int]int{}, strIDs: map[string]int64{}, strByID: map[int64]string{}}
 	c.True = c.mk(&Term{sort: SBool, op: "const", isCon: true, bval: true, name: "true"})
 	c.False = c.mk(&Term{sort: SBool, op: "const", isCon: true, bval: false, name: "false"})
 	c.addAnchor(big.NewRat(0, 1))
 	c.addAnchor(big.NewRat(1, 1))
+	// a tiny representable constant: rounding cannot turn a value >= 2^-100 into zero or change its sign
+	tiny := new(big.Rat).SetFrac(big.NewInt(1), new(big.Int).Lsh(big.NewInt(1), 100))
+	c.addAnchor(tiny)
+	c.addAnchor(new(big.Rat).Neg(tiny))
 	return c
 }
 
@@ -147,7 +155,8 @@ func (c *TermCtx) Bool(b bool) *Term {
 }
 func (c *TermCtx) Real(r *big.Rat) *Term {
 	r = new(big.Rat).Set(r)
-	return c.mk(&Term{sort: SReal, op: "const", isCon: true, rval: r, name: smtRat(r), intVal: r.IsInt()})
+	_, ex := r.Float64()
+	return c.mk(&Term{sort: SReal, op: "const", isCon: true, rval: r, name: smtRat(r), intVal: r.IsInt(), exact: ex})
 }
 func (c *TermCtx) RealF(f float64) *Term {
 	r := new(big.Rat)
@@ -578,6 +587,7 @@ func (c *TermCtx) Ite(cond, a, b *Term) *Term {
 	}
 	if a.sort == SReal {
 		t.intVal = a.intVal && b.intVal
+		t.exact = a.exact && b.exact
 	}
 	return t
 }
@@ -590,6 +600,12 @@ func (c *TermCtx) ToReal(a *Term) *Term {
 	}
 	t := c.nary("to_real", SReal, a)
 	t.intVal = true
+	if a.lo != nil && a.hi != nil && new(big.Int).Abs(a.lo).Cmp(two53) <= 0 && new(big.Int).Abs(a.hi).Cmp(two53) <= 0 {
+		if !t.exact && len(c.symAnchors) < 32 {
+			c.symAnchors = append(c.symAnchors, t)
+		}
+		t.exact = true
+	}
 	return t
 }
 
@@ -609,9 +625,64 @@ func (c *TermCtx) RBin(op string, a, b *Term) *Term {
 			}
 		}
 	}
+	isC := func(t *Term, v int64) bool { return t.isCon && t.rval.Cmp(big.NewRat(v, 1)) == 0 }
+	switch op {
+	case "+":
+		if isC(a, 0) {
+			return b
+		}
+		if isC(b, 0) {
+			return a
+		}
+	case "-":
+		if isC(b, 0) {
+			return a
+		}
+	case "*":
+		if isC(a, 1) {
+			return b
+		}
+		if isC(b, 1) {
+			return a
+		}
+		if isC(a, 0) || isC(b, 0) {
+			return c.Real(big.NewRat(0, 1))
+		}
+		if !a.isCon && !b.isCon {
+			// symbolic x symbolic: uninterpreted product with instantiated sign/unit/contraction axioms
+			if a.id > b.id {
+				a, b = b, a
+			}
+			t := c.mk(&Term{sort: SReal, op: "rmul", args: []*Term{a, b}})
+			c.regAnchored(t)
+			t.intVal = a.intVal && b.intVal
+			return t
+		}
+	case "/":
+		if isC(b, 1) {
+			return a
+		}
+		if isC(a, 0) {
+			return a
+		}
+		if !b.isCon {
+			// division by a symbolic divisor: uninterpreted quotient related to its operands through
+			// linear anchor instances  (q >= c  <=>  a >= c*b  for b > 0, every constant c in scope)
+			t := c.mk(&Term{sort: SReal, op: "rdiv", args: []*Term{a, b}})
+			c.regAnchored(t)
+			return t
+		}
+	}
 	t := c.nary(op, SReal, a, b)
 	t.intVal = op != "/" && a.intVal && b.intVal
 	return t
+}
+
+func (c *TermCtx) regAnchored(t *Term) {
+	if t.extra == "" {
+		t.extra = "reg"
+		c.flTerms = append(c.flTerms, t)
+	}
 }
 
 // Fl models rounding to nearest float64 of the exact real e (see DESIGN 2.3, E2).
@@ -626,15 +697,12 @@ func (c *TermCtx) Fl(e *Term) *Term {
 		c.addAnchor(r)
 		return c.Real(r)
 	}
-	if e.op == "fl" {
+	if e.op == "fl" || e.exact {
 		return e
 	}
 	t := c.mk(&Term{sort: SReal, op: "fl", args: []*Term{e}})
-	if !t.sent && t.extra == "" {
-		t.extra = "reg"
-		t.intVal = false
-		c.flTerms = append(c.flTerms, t)
-	}
+	t.exact = true
+	c.regAnchored(t)
 	return t
 }
 
@@ -676,6 +744,8 @@ const smtPrelude = `(set-option :produce-models true)
 (define-fun rtrunc ((x Real)) Int (ite (>= x 0.0) (to_int x) (- (to_int (- x)))))
 (define-fun rabs ((x Real)) Real (ite (>= x 0.0) x (- x)))
 (declare-fun fl (Real) Real)
+(declare-fun rdiv (Real Real) Real)
+(declare-fun rmul (Real Real) Real)
 (declare-fun strcat (Int Int) Int)
 (declare-fun ufhash (Int) Int)
 (declare-fun itoa (Int) Int)
@@ -691,6 +761,8 @@ func (t *Term) expr() string {
 		return s
 	case "fl":
 		return "(fl " + t.args[0].name + ")"
+	case "rdiv", "rmul":
+		return "(" + t.op + " " + t.args[0].name + " " + t.args[1].name + ")"
 	}
 	var sb strings.Builder
 	sb.WriteByte('(')
@@ -752,42 +824,83 @@ func (c *TermCtx) emit(t *Term, out *strings.Builder) {
 var twoM53 = new(big.Rat).SetFrac(big.NewInt(1), new(big.Int).Lsh(big.NewInt(1), 53))
 var two53 = new(big.Int).Lsh(big.NewInt(1), 53)
 
-// flAxioms emits the instantiated rounding axioms for the fl-applications created so far:
-// relative error bound, exactness on integers up to 2^53, anchors (monotonicity against every
-// representable constant in scope) and pairwise monotonicity between fl-applications.
+// flAxioms emits the instantiated axioms for the anchored applications created so far.
+//   fl(e):     relative error bound, exactness on integers up to 2^53, monotonicity against every
+//              representable constant in scope (anchors) and pairwise between fl-applications;
+//   rdiv(a,b): for every anchor c:  b>0 => (q>=c <=> a>=c*b) and (q<=c <=> a<=c*b), mirrored for b<0;
+//   rmul(x,y): zero/unit/sign laws and contraction (0<=y<=1, x>=0 => 0<=p<=x).
+// All of them are consequences of IEEE-754 RNE / real arithmetic, so the encoding over-approximates
+// the concrete semantics: unsat is a proof, a model is only a candidate (it must reproduce concretely).
 func (c *TermCtx) flAxioms(out *strings.Builder) {
-	var live []*Term
+	var live, fls []*Term
 	for _, t := range c.flTerms {
 		if t.sent {
 			live = append(live, t)
+			if t.op == "fl" {
+				fls = append(fls, t)
+			}
 		}
 	}
 	for _, t := range live {
-		e := t.args[0].name
 		r := t.name
 		n, seen := c.flAnchored[t.id]
-		if !seen {
-			eps := smtRat(twoM53)
-			fmt.Fprintf(out, "(assert (and (<= (- %s (* %s (rabs %s))) %s) (<= %s (+ %s (* %s (rabs %s))))))\n", e, eps, e, r, r, e, eps, e)
-			if t.args[0].intVal {
-				b := new(big.Rat).SetInt(two53)
-				fmt.Fprintf(out, "(assert (=> (<= (rabs %s) %s) (= %s %s)))\n", e, smtRat(b), r, e)
+		switch t.op {
+		case "fl":
+			e := t.args[0].name
+			if !seen && !c.noEps {
+				eps := smtRat(twoM53)
+				fmt.Fprintf(out, "(assert (and (<= (- %s (* %s (rabs %s))) %s) (<= %s (+ %s (* %s (rabs %s))))))\n", e, eps, e, r, r, e, eps, e)
+				if t.args[0].intVal {
+					b := new(big.Rat).SetInt(two53)
+					fmt.Fprintf(out, "(assert (=> (<= (rabs %s) %s) (= %s %s)))\n", e, smtRat(b), r, e)
+				}
 			}
-		}
-		for ; n < len(c.anchors); n++ {
-			a := smtRat(c.anchors[n])
-			fmt.Fprintf(out, "(assert (and (=> (>= %s %s) (>= %s %s)) (=> (<= %s %s) (<= %s %s))))\n", e, a, r, a, e, a, r, a)
+			for ; n < len(c.anchors); n++ {
+				a := smtRat(c.anchors[n])
+				fmt.Fprintf(out, "(assert (and (=> (>= %s %s) (>= %s %s)) (=> (<= %s %s) (<= %s %s))))\n", e, a, r, a, e, a, r, a)
+			}
+			// monotonicity against symbolic representable values
+			m := c.flSymAnch[t.id]
+			for ; m < len(c.symAnchors); m++ {
+				sa := c.symAnchors[m]
+				if !sa.sent || sa == t.args[0] {
+					break
+				}
+				a := sa.name
+				fmt.Fprintf(out, "(assert (and (=> (>= %s %s) (>= %s %s)) (=> (<= %s %s) (<= %s %s))))\n", e, a, r, a, e, a, r, a)
+			}
+			c.flSymAnch[t.id] = m
+		case "rdiv":
+			a, b := t.args[0].name, t.args[1].name
+			for ; n < len(c.anchors); n++ {
+				k := smtRat(c.anchors[n])
+				fmt.Fprintf(out, "(assert (=> (> %s 0.0) (and (= (>= %s %s) (>= %s (* %s %s))) (= (<= %s %s) (<= %s (* %s %s))))))\n", b, r, k, a, k, b, r, k, a, k, b)
+				fmt.Fprintf(out, "(assert (=> (< %s 0.0) (and (= (>= %s %s) (<= %s (* %s %s))) (= (<= %s %s) (>= %s (* %s %s))))))\n", b, r, k, a, k, b, r, k, a, k, b)
+			}
+		case "rmul":
+			x, y := t.args[0].name, t.args[1].name
+			if !seen {
+				fmt.Fprintf(out, "(assert (=> (or (= %s 0.0) (= %s 0.0)) (= %s 0.0)))\n", x, y, r)
+				fmt.Fprintf(out, "(assert (=> (= %s 1.0) (= %s %s)))\n(assert (=> (= %s 1.0) (= %s %s)))\n", x, r, y, y, r, x)
+				fmt.Fprintf(out, "(assert (=> (and (> %s 0.0) (> %s 0.0)) (> %s 0.0)))\n(assert (=> (and (< %s 0.0) (< %s 0.0)) (> %s 0.0)))\n", x, y, r, x, y, r)
+				fmt.Fprintf(out, "(assert (=> (and (> %s 0.0) (< %s 0.0)) (< %s 0.0)))\n(assert (=> (and (< %s 0.0) (> %s 0.0)) (< %s 0.0)))\n", x, y, r, x, y, r)
+				fmt.Fprintf(out, "(assert (=> (and (>= %s 0.0) (>= %s 0.0) (<= %s 1.0)) (<= %s %s)))\n", x, y, y, r, x)
+				fmt.Fprintf(out, "(assert (=> (and (>= %s 0.0) (>= %s 0.0) (<= %s 1.0)) (<= %s %s)))\n", y, x, x, r, y)
+				fmt.Fprintf(out, "(assert (=> (and (>= %s 0.0) (>= %s 1.0)) (>= %s %s)))\n", x, y, r, x)
+				fmt.Fprintf(out, "(assert (=> (and (>= %s 0.0) (>= %s 1.0)) (>= %s %s)))\n", y, x, r, y)
+			}
+			n = len(c.anchors)
 		}
 		c.flAnchored[t.id] = len(c.anchors)
 	}
-	if len(live) <= 48 {
-		for i := c.flPairs; i < len(live); i++ {
+	if len(fls) <= 48 {
+		for i := c.flPairs; i < len(fls); i++ {
 			for j := 0; j < i; j++ {
-				a, b := live[i], live[j]
+				a, b := fls[i], fls[j]
 				fmt.Fprintf(out, "(assert (and (=> (<= %s %s) (<= %s %s)) (=> (<= %s %s) (<= %s %s))))\n",
 					a.args[0].name, b.args[0].name, a.name, b.name, b.args[0].name, a.args[0].name, b.name, a.name)
 			}
 		}
-		c.flPairs = len(live)
+		c.flPairs = len(fls)
 	}
 }
